@@ -27,6 +27,9 @@ def render : Ev → String
   | .cvp v s r => s!"cvp {showV v} {showP s} -> {if v.raises then "!err" else showO r}"
   | .sn s r => s!"sn {showP s} -> {showO r}"
   | .inc b n nm ts => s!"inc {showP b} {showP n} -> {showP nm} tries" ++ String.join (ts.map (fun t => " " ++ showP t))
+  | .il l es => s!"il {showP l} ->" ++ String.join (es.map (fun e => match e with
+      | some d => " " ++ showP d
+      | none => " -"))
   | .call f who args => s!"call {f} {who}" ++ String.join (args.map (fun t => " " ++ showP t))
   | .valid w p who op v => s!"{if w then "valid_write" else "valid_read"} {showP p} {who} {op} -> {showV v}"
   | .fs fn w p => s!"fs {fn} {if w then "w" else "r"} {showP p}"
@@ -78,6 +81,9 @@ def parseEv (line : String) : Ev :=
   | "inc" :: b :: n :: "->" :: nm :: "tries" :: ts => match unbr b, unbr n, unbr nm with
     | some b, some n, some nm => .inc b n nm (ts.filterMap unbr)
     | _, _, _ => .note line
+  | "il" :: l :: "->" :: es => match unbr l with
+    | some l => .il l (es.map (fun t => if t == "-" then none else unbr t))
+    | none => .note line
   | "call" :: f :: who :: args => .call f who (args.filterMap unbr)
   | [vk, p, who, op, "->", v] =>
     if vk == "valid_read" || vk == "valid_write" then
@@ -116,6 +122,7 @@ def uLp (s : CStr) : Ev := .lp s (legalPath s)
 def uCvp (pol : Policy) (s : CStr) : Ev :=
   .cvp (pol.verdict false s) s (checkValidPath true (pol.verdict false s) s)   -- the harness asks with writeflg = 0
 def uSn (s : CStr) : Ev := .sn s (stripName s)
+def uIl (list : CStr) : List Ev := [.il list ((incListOf list).getD [])]
 def uInc (base name : CStr) : Ev := .inc base name (incNormal base name) (incTries incGuarded incDirs base name)
 
 def parseEdCmd (t : String) : Option EdCmd :=
@@ -153,6 +160,12 @@ def modelLine (s : MState) (line : String) : MState :=
   | ["ucvp1", p, x] => match parsePolicy p, unbr x with
     | some p, some x => { s with pol := p }.emit [uCvp p x]
     | _, _ => bad
+  | ["uil1", x] => match unbr x with
+    | some x => s.emit (uIl x)
+    | none => bad
+  | ["uil", al, len, frm, cnt] => match len.toNat?, frm.toNat?, cnt.toNat? with
+    | some l, some f, some c => s.emit ((enumStrings al l f c).flatMap uIl)
+    | _, _, _ => bad
   | ["uinc1", b, x] => match unbr b, unbr x with
     | some b, some x => s.emit [uInc b x]
     | _, _ => bad
@@ -190,9 +203,19 @@ def modelLine (s : MState) (line : String) : MState :=
   | ["inc", b, n] => match unbr b, unbr n with
     | some b, some n => s.emit (.call "include" "-" [b, n] :: includeEvents b n)
     | _, _ => bad
+  | ["inca", b, n] => match unbr b, unbr n with       -- `#include <name>`: handled exactly like "name"
+    | some b, some n => s.emit (.call "include" "-" [b, n] :: includeEvents b n)
+    | _, _ => bad
+  | ["incm", b, n] => match unbr b, unbr n with       -- `#include MACRO` with MACRO = "name"
+    | some b, some n => s.emit (.call "include" "-" [b, n] :: includeEvents b n)
+    | _, _ => bad
   | ["inh", b, n] => match unbr b, unbr n with
     | some b, some n => s.emit (.call "inherit" "-" [b, n] :: inheritEvents b n)
     | _, _ => bad
+  | ["binaries", "on"] => s.emit [.note "binaries on"]
+  | ["ldb", n] => match unbr n with
+    | some n => s.emit (.call "binary" "-" [n] :: binaryEvents n)
+    | none => bad
   | ["ld", n] => match unbr n with
     | some n => s.emit (.call "load" "-" [n] :: (loadEvents [] n).1)
     | none => bad
